@@ -29,6 +29,9 @@
        Write      json.Marshal of the in-memory record ; Write
        Unlock     file.Close ; flock(LOCK_UN) ; lockFile.Close
    A Save does not read: it is an update whose function is constant, the saver's in-memory record.
+   STDoutWriter.Write -> saveStdoutSize (stdio_utils.go) is ONE UpdateFullStatus whose function
+   sets StdoutSize: in the model an update ([set_own] on the harness' records).  The composition
+   "Load ; Save" instead of it (a seeded mutation) is two critical sections: refuted in Proofs.
    [step_early] is Save with the truncating open BEFORE the lock (a seeded mutation), kept to
    prove what breaks.
 
@@ -233,6 +236,9 @@ Definition incr (w : nat) (r : crec) : crec :=
 
 Definition crec0 (nw : nat) : crec := (0, repeat 0 nw).
 
+(* saveStdoutSize of the writer that owns counter [w]: the size becomes [n], nothing else changes *)
+Definition set_own (w : nat) (n : N) (r : crec) : crec := (fst r, upd w n (snd r)).
+
 Fixpoint beq_nlist (a b : list N) : bool :=
   match a, b with
   | [], [] => true
@@ -290,13 +296,21 @@ Definition kprogs (nw : nat) (progs : list (list kop)) := kprogs_from nw O progs
 Inductive lock_case :=
 | CTrace (nw : nat) (file0 : option crec) (progs : list (list kop)) (obs : list (nat * label))
          (reads : list (nat * option crec)) (final : option crec)
-| CStress (nw : nat) (file0 : option crec) (order : list nat) (final : crec) (loads : list crec).
+| CStress (nw : nat) (file0 : option crec) (order : list nat) (final : crec) (loads : list crec)
+(* a stress round with a STDoutWriter: [order] = all writes in the order recovered from what the
+   updates saw, (w, None) an increment by w, (w, Some n) saveStdoutSize(n) by w; every record
+   anybody was given must be the stored record after some prefix *)
+| CStressO (nw : nat) (file0 : option crec) (order : list (nat * option N)) (final : crec) (seen : list crec).
 
 Definition fc_of (o : option crec) : fcontent crec :=
   match o with Some r => FRec r | None => FEmpty end.
 
 Definition pair_eqb {A B} (ea : A -> A -> bool) (eb : B -> B -> bool) (x y : A * B) : bool :=
   ea (fst x) (fst y) && eb (snd x) (snd y).
+
+Definition prefix_files (a0 : astate crec) (ops : list (nat * op crec)) : list (fcontent crec) :=
+  snd (fold_left (fun acc po => let a' := atomic_op (fst acc) po in (a', a_file a' :: snd acc))
+                 ops (a0, [a_file a0])).
 
 Definition lock_check (c : lock_case) : bool :=
   match c with
@@ -314,4 +328,14 @@ Definition lock_check (c : lock_case) : bool :=
     forallb (fun w => Nat.ltb w nw) order
     && fc_eqb (a_file (atomic_run a0 ops)) (FRec final)
     && forallb (fun l => fc_eqb (a_file (atomic_run a0 (firstn (N.to_nat (fst l - base)) ops))) (FRec l)) loads
+  | CStressO nw file0 order final seen =>
+    let a0 := a_init (fc_of file0) (map (fun _ => ([], crec0 nw)) (seq 0 nw)) in
+    let ops := map (fun x => (fst x, match snd x with
+                                     | None => OUpd (incr (fst x))
+                                     | Some n => OUpd (set_own (fst x) n)
+                                     end)) order in
+    let states := prefix_files a0 ops in
+    forallb (fun x => Nat.ltb (fst x) nw) order
+    && fc_eqb (a_file (atomic_run a0 ops)) (FRec final)
+    && forallb (fun r => existsb (fc_eqb (FRec r)) states) seen
   end.
